@@ -38,6 +38,10 @@ P('C18','sibling agreement over the implementations of proxy.Server.Shutdown, ac
   "Decides per implementation and per path the structural necessary conditions of a bounded, draining shutdown: every Shutdown(ctx) uses its context and makes no synchronous unbounded wait; proxy.Shutdown fans out with WithTimeout(Background, wait), joins correctly and releases the registry lock before waiting; main passes proxy.shutdownwait; every lock in proxy and proxy/tcp is released on all paths; tcp.Server closes listeners before and connections after the wait; only serve() and the composite server start servers; the exit callback deregisters, sleeps the grace period, then shuts down. Wall-clock bounds are timing and not decided.",
   COMMON_NOTE)
 
+P('C11','publish-after-build and one-snapshot rules, branch-fact rules on getCertificate, key-canonicality value flow, loop-pacing analysis (every cycle of every condition-less loop), error-edge NEG rules for channel sends',
+  "Decides structurally: index built before the atomic publish and nothing written after; one load of the set per handshake; fallback to the first certificate only without strict matching and (nil,nil) on a strict miss; every index lookup keyed by the lower-cased, dot-trimmed server name; every cycle of every watcher loop in package cert paced (incl. advancing Consul wait index); no certificate set sent from a loader's error edge; result order from the sorted name list; the updates goroutine applies every received set and is started before the config is returned. X.509 name matching beyond the exact/one-label wildcard index lookup depends on certificate contents and is not decided.",
+  COMMON_NOTE)
+
 checks=[]; na=[]
 for p in props:
     id=p['id']
